@@ -114,6 +114,8 @@ type seqState struct {
 	prev  []string
 	mode  string
 	names []string
+	kinds []string // when non-empty, only these operation kinds are generated
+	extra func()   // extra output of the current step, emitted after the status
 }
 
 func (s *seqState) dump() {
@@ -191,6 +193,9 @@ func (s *seqState) stepOnce() {
 	} else {
 		kind = Pick(r, editOps)
 	}
+	if len(s.kinds) > 0 {
+		kind = Pick(r, s.kinds)
+	}
 	t := r.Intn(len(s.pool))
 	if s.mode == "c02" && len(s.pool) > 1 && r.Chance(50) {
 		t = len(s.pool) - 1 - r.Intn(2) // favour the most recently derived frames and their neighbours
@@ -199,12 +204,17 @@ func (s *seqState) stepOnce() {
 	n := 0
 	guard(func() error { n = f.Nrows(); return nil })
 	bad := s.mode == "c20" || r.Chance(15)
+	s.extra = nil
+	if kind == "qrow" || kind == "qnames" || kind == "qshape" {
+		s.query(kind, t, f, n, bad)
+		return
+	}
 	e.Tok("OP")
 	var status string
 	switch kind {
 	case "head", "tail":
 		c := r.Range(0, n+1)
-		if bad {
+		if bad || (s.mode == "c08" && r.Chance(40)) {
 			c = r.BoundaryInt(n)
 		}
 		e.Tok(kind)
@@ -218,7 +228,7 @@ func (s *seqState) stepOnce() {
 		})
 	case "rowslice":
 		a, b := r.Range(-1, n+1), r.Range(-1, n+2)
-		if bad {
+		if bad || (s.mode == "c08" && r.Chance(30)) {
 			a, b = r.BoundaryInt(n), r.BoundaryInt(n)
 		}
 		e.Tok("rowslice")
@@ -237,14 +247,31 @@ func (s *seqState) stepOnce() {
 		for _, b := range bits {
 			e.Bool(b)
 		}
+		var log []map[string]any
 		status, _ = guard(func() error {
 			calls := 0
-			return s.derive(f.Filter(func(row map[string]any) bool {
+			pred := func(row map[string]any) bool {
 				j := calls
 				calls++
+				cp := make(map[string]any, len(row))
+				for k, v := range row {
+					cp[k] = v
+				}
+				log = append(log, cp)
 				return j < len(bits) && bits[j]
-			}), nil)
+			}
+			if r.Bool() {
+				return s.derive(f.Filter(pred), nil)
+			}
+			return s.derive(f.BooleanIndex(pred), nil)
 		})
+		s.extra = func() {
+			e.Tok("X")
+			e.Int(len(log))
+			for _, row := range log {
+				e.Row(row)
+			}
+		}
 	case "loc":
 		nl := r.Intn(4)
 		labels := make([]any, nl)
@@ -296,7 +323,7 @@ func (s *seqState) stepOnce() {
 		status, _ = guard(func() error { return s.derive(f.SortValues(cols, asc)) })
 	case "shift":
 		p := r.Range(-2, 3)
-		if bad {
+		if bad || (s.mode == "c19" && r.Chance(60)) {
 			p = r.BoundaryInt(n)
 		}
 		e.Tok("shift")
@@ -327,7 +354,21 @@ func (s *seqState) stepOnce() {
 		})
 	case "join":
 		u := r.Intn(len(s.pool))
+		if s.mode == "c03" {
+			t, u = r.Intn(2), r.Intn(2)
+			f = s.pool[t]
+		}
 		g := s.pool[u]
+		if f.Nrows()*g.Nrows() > 400 { // keep results small: nested-loop joins multiply sizes
+			u = t
+			g = f
+			if f.Nrows() > 20 {
+				e.Tok("dropna")
+				e.Int(t)
+				status, _ = guard(func() error { return f.DropNa() })
+				break
+			}
+		}
 		key := s.r.NameFor(f, s.names)
 		if _, ok := g.Columns["k"]; ok && r.Chance(60) {
 			key = "k"
@@ -553,6 +594,46 @@ func (s *seqState) stepOnce() {
 		status, _ = guard(func() error { return f.AddDatetimeIndex(col, layout) })
 	}
 	e.Tok("R", status)
+	if s.extra != nil {
+		s.extra()
+	}
+	s.dump()
+}
+
+// query: read-only accessors (Row, ColumnNames, Nrows/Ncols)
+func (s *seqState) query(kind string, t int, f *DF, n int, bad bool) {
+	r, e := s.r, s.e
+	e.Tok("QY", kind)
+	e.Int(t)
+	switch kind {
+	case "qrow":
+		i := r.Range(0, max(n-1, 0))
+		if bad || r.Chance(25) {
+			i = r.BoundaryInt(n)
+		}
+		e.Int(i)
+		var row map[string]any
+		status, _ := guard(func() error { var err error; row, err = f.Row(i); return err })
+		e.Tok("R", status)
+		if status == "ok" {
+			e.Row(row)
+		}
+	case "qnames":
+		var names []string
+		status, _ := guard(func() error { names = f.ColumnNames(); return nil })
+		e.Tok("R", status)
+		if status == "ok" {
+			e.Strs(names)
+		}
+	case "qshape":
+		var nr, nc int
+		status, _ := guard(func() error { nr, nc = f.Nrows(), f.Ncols(); return nil })
+		e.Tok("R", status)
+		if status == "ok" {
+			e.Int(nr)
+			e.Int(nc)
+		}
+	}
 	s.dump()
 }
 
@@ -564,26 +645,155 @@ func genSeq(r *Rng, mode string, steps int) *Enc {
 		names = colNames
 	}
 	s := &seqState{r: r, e: e, mode: mode, names: names}
-	npool := r.Range(1, 3)
-	for i := 0; i < npool; i++ {
-		f := r.Frame(r.SmallN(), r.Range(0, 4), names)
-		if r.Chance(50) && f.Ncols() > 0 {
-			// a key column with few distinct values so that joins and groups match
-			n := f.Nrows()
-			f.Columns["k"] = &dataframe.Column[any]{Name: "k", Data: r.Column(n, kInt)}
-		}
-		if r.Chance(15) {
-			n := f.Nrows()
-			if f.Ncols() == 0 {
-				n = r.SmallN()
+	switch mode {
+	case "c03":
+		s.kinds = []string{"join"}
+		steps = r.Range(1, 3)
+		keyAlpha := []any{nil, 1, 2, int64(1), 1.0, "1", "a", true, 3, "b"}
+		mk := func(payload []string) *DF {
+			n := r.SmallN()
+			if r.Chance(10) {
+				n = r.Range(9, 30)
 			}
-			f.Columns["t"] = &dataframe.Column[any]{Name: "t", Data: r.Column(n, kTime)}
+			df := dataframe.NewDataFrame()
+			kd := make([]any, n)
+			for i := range kd {
+				kd[i] = Pick(r, keyAlpha[:r.Range(2, len(keyAlpha))])
+			}
+			if !r.Chance(5) {
+				df.Columns["k"] = &dataframe.Column[any]{Name: "k", Data: kd}
+			}
+			for _, p := range payload[:r.Range(0, len(payload))] {
+				df.Columns[p] = &dataframe.Column[any]{Name: p, Data: r.Column(n, r.Kind())}
+			}
+			return df
 		}
-		if r.Chance(20) && f.Ncols() > 0 {
-			n := f.Nrows()
-			f.Columns["index"] = &dataframe.Column[any]{Name: "index", Data: r.Column(n, kInt)}
+		left, right := []string{"a", "b", "l"}, []string{"c", "d", "r"}
+		if r.Chance(12) {
+			right = []string{"a", "d"}
 		}
-		s.pool = append(s.pool, f)
+		s.pool = []*DF{mk(left), mk(right)}
+		s.names = []string{"k", "a", "c", "zz"}
+	case "c06":
+		s.kinds = []string{"sort"}
+		steps = r.Range(1, 2)
+		n := r.SmallN()
+		if r.Chance(35) {
+			n = r.Range(9, 40)
+		}
+		if r.Chance(25) {
+			n = 2 // two rows: sort.Sort reveals Less(1,0) exactly
+		}
+		df := dataframe.NewDataFrame()
+		for _, c := range []string{"a", "b", "c"}[:r.Range(1, 3)] {
+			k := Pick(r, []colKind{kInt, kInt, kFloat, kStr, kNumStr, kWide, kBool, kTime, kMixed})
+			d := r.Column(n, k)
+			if r.Chance(50) { // few distinct values: many ties
+				for i := range d {
+					d[i] = d[r.Intn(min(3, n))]
+				}
+			}
+			df.Columns[c] = &dataframe.Column[any]{Name: c, Data: d}
+		}
+		s.pool = []*DF{df}
+		s.names = []string{"a", "b", "c", "zz"}
+	case "c07":
+		s.kinds = []string{"dedup", "dedupin"}
+		steps = r.Range(1, 2)
+		n := r.SmallN() + r.Intn(6)
+		df := dataframe.NewDataFrame()
+		colAlpha := [][]any{
+			{"x|b:y", "x", "y|b:z", "z", "nil", nil, "<nil>", "", "a", "a|", "1", 1},
+			{1, 2, int64(1), 1.0, "1", nil, true, "true"},
+			{"a", "b", nil}, {0.5, 1.5, float32(0.5), nil, 2},
+		}
+		for _, c := range []string{"a", "b", "c"}[:r.Range(1, 3)] {
+			alpha := Pick(r, colAlpha)
+			alpha = alpha[:r.Range(2, len(alpha))]
+			d := make([]any, n)
+			for i := range d {
+				d[i] = Pick(r, alpha)
+			}
+			df.Columns[c] = &dataframe.Column[any]{Name: c, Data: d}
+		}
+		s.pool = []*DF{df}
+		s.names = []string{"a", "b", "c", "zz"}
+	case "c08":
+		s.kinds = []string{"head", "tail", "rowslice", "filter", "iloc", "loc", "multiselect", "droprow", "dropcol", "qrow", "qnames", "qshape"}
+		steps = r.Range(1, 4)
+		n := r.SmallN() + r.Intn(5)
+		df := r.Frame(n, r.Range(0, 4), names)
+		if df.Ncols() > 0 && r.Chance(50) {
+			df.Columns["index"] = &dataframe.Column[any]{Name: "index", Data: r.Column(n, Pick(r, []colKind{kInt, kStr, kMixed}))}
+		}
+		s.pool = []*DF{df}
+	case "c15":
+		s.kinds = []string{"fillna", "dropna", "astype", "astype", "adddt"}
+		steps = r.Range(1, 3)
+		n := r.SmallN() + r.Intn(5)
+		df := dataframe.NewDataFrame()
+		for _, c := range []string{"a", "b", "c", "d"}[:r.Range(1, 4)] {
+			var d []any
+			switch r.Intn(6) {
+			case 0: // floats for Astype int, incl. negative fractions and large values
+				d = make([]any, n)
+				for i := range d {
+					d[i] = Pick(r, []float64{0, 1, -0.5, 0.5, 2.9, -2.9, 1e15, 4611686018427387904.0 / 2, -7.99})
+				}
+			case 1:
+				d = r.Column(n, kInt)
+			case 2: // date strings
+				d = make([]any, n)
+				for i := range d {
+					d[i] = Pick(r, []string{"2020-01-02", "1999-12-31", "2021-02-30", "2020-01-02 03:04:05", "x"})
+					if r.Chance(10) {
+						d[i] = nil
+					}
+				}
+			default:
+				d = r.Column(n, r.Kind())
+			}
+			// without nil half of the time, and with one odd cell at a chosen position
+			if r.Bool() {
+				for i := range d {
+					if d[i] == nil {
+						d[i] = d[(i+1)%len(d)]
+					}
+				}
+			}
+			if n > 0 && r.Chance(30) {
+				d[Pick(r, []int{0, n / 2, n - 1})] = r.Cell()
+			}
+			df.Columns[c] = &dataframe.Column[any]{Name: c, Data: d}
+		}
+		s.pool = []*DF{df}
+		s.names = []string{"a", "b", "c", "d", "zz"}
+	case "c19":
+		s.kinds = []string{"shift"}
+		steps = r.Range(1, 3)
+		s.pool = []*DF{r.Frame(r.SmallN()+r.Intn(4), r.Range(0, 3), names)}
+	default:
+		npool := r.Range(1, 3)
+		for i := 0; i < npool; i++ {
+			f := r.Frame(r.SmallN(), r.Range(0, 4), names)
+			if r.Chance(50) && f.Ncols() > 0 {
+				// a key column with few distinct values so that joins and groups match
+				n := f.Nrows()
+				f.Columns["k"] = &dataframe.Column[any]{Name: "k", Data: r.Column(n, kInt)}
+			}
+			if r.Chance(15) {
+				n := f.Nrows()
+				if f.Ncols() == 0 {
+					n = r.SmallN()
+				}
+				f.Columns["t"] = &dataframe.Column[any]{Name: "t", Data: r.Column(n, kTime)}
+			}
+			if r.Chance(20) && f.Ncols() > 0 {
+				n := f.Nrows()
+				f.Columns["index"] = &dataframe.Column[any]{Name: "index", Data: r.Column(n, kInt)}
+			}
+			s.pool = append(s.pool, f)
+		}
 	}
 	e.Tok("P")
 	e.Int(len(s.pool))
